@@ -14,7 +14,8 @@ from ..engine import src
 PID = "C16"
 LEVEL = "exploration"
 RULE = ("model x depth lattice x frequency lattice x shape combination (scalar, length-1 array, length-3 array for depth "
-        "and for frequency); distinct_nontrivial = distinct (model, check, depth/frequency point) evaluations that returned a "
+        "and for frequency, every ordered selection of 1 or 3 of the 7 frequencies with repetition x every order of the "
+        "depth selection); distinct_nontrivial = distinct (model, check, depth/frequency point) evaluations that returned a "
         "finite value inside the valid range")
 ASSUMPTIONS = ["gradient is compared with a central difference only inside the valid range",
                "attenuation positivity is demanded inside the valid depth range (below it ArasimIce extrapolates its table linearly)",
@@ -208,9 +209,11 @@ def evaluate(case):
         for zshape, fshape in itertools.product((0, 1, 3), (0, 1, 3)):
             if zshape == 0 and fshape == 0:
                 continue
-            zsel = zin[1:1 + max(zshape, 1)]
-            for fstart in range(0, len(FREQS) - max(fshape, 1) + 1):
-                fsel = FREQS[fstart:fstart + max(fshape, 1)]
+            # every ordered selection (unsorted, descending and repeated values included) of frequencies and every
+            # order of the depth selection: the matrix must not depend on how the caller ordered its axes
+            for zsel, fsel in itertools.product(
+                    (list(q) for q in itertools.permutations(zin[1:1 + max(zshape, 1)])),
+                    (list(q) for q in itertools.product(FREQS, repeat=max(fshape, 1)))):
                 za = np.array(zsel) if zshape else zsel[0]
                 fa = np.array(fsel) if fshape else fsel[0]
                 n += 1
